@@ -195,15 +195,22 @@ class Run:
         self.val_states += r["distinct"]
         self.val_trans += r["generated"]
         done = {}
+        badl = collections.defaultdict(list)
         if os.path.exists(vout):
             for line in open(vout):
                 line = line.strip()
                 if not line:
                     continue
-                rec = json.loads(line)
-                if isinstance(rec, str):
-                    rec = json.loads(rec)
-                done[rec["h"]] = rec
+                try:
+                    rec = json.loads(line)
+                    if isinstance(rec, str):
+                        rec = json.loads(rec)
+                except ValueError:
+                    raise Infra("torn verdict line in %s" % vout)
+                if "n" in rec:
+                    done[rec["h"]] = rec
+                else:
+                    badl[rec["h"]].append(rec)
         # acceptance: every history consumed to its end
         hist = {}
         with open(trace) as f:
@@ -215,11 +222,13 @@ class Run:
         missing = [h for h in hist if h not in done]
         if missing:
             raise Infra("trace validation incomplete: %d of %d histories not consumed (first %s)" % (len(missing), len(hist), missing[:3]))
+        nrej = 0
         for hid, rec in done.items():
             if rec["n"] != len(hist[hid]["ev"]):
                 raise Infra("history %s: %d of %d events consumed" % (hid, rec["n"], len(hist[hid]["ev"])))
             nev += rec["n"]
-            for b in rec["bad"]:
+            for b in sorted(badl[hid], key=lambda x: x["i"]):
+                nrej += 1
                 self.verdicts.append(dict(trace=trace, h=hid, i=b["i"], v=b["v"], event=hist[hid]["ev"][b["i"] - 1],
                                           history=hist[hid]["ev"]))
         self.events += nev
@@ -238,7 +247,7 @@ class Run:
                 evs = hist[hid]["ev"]
                 self.samples.append({"history": hid, "events": [shorten(x) for x in evs[:3]]})
         log("val %s: %d events / %d histories judged by TLC (%d states), %d rejected, %.1fs" %
-            (module, nev, len(hist), r["distinct"], sum(len(d["bad"]) for d in done.values()), r["wall"]))
+            (module, nev, len(hist), r["distinct"], nrej, r["wall"]))
         return done
 
 
